@@ -25,14 +25,9 @@ package kernel
 //@   -- a round that is referenced by the head round exists: a successful read returns it
 //@   modifies nothing
 //@   ensures err == nil ==> result0 != nil
-//@ assume func (chain *Chain) determineBestRound
-//@   modifies nothing
-//@ assume func (chain *Chain) updateEmptyHeadRoundAndPersist
-//@   modifies cache.References, ghost kernel_graph_state
-//@ assume func (chain *Chain) startNewRoundAndPersist
-//@   modifies ghost kernel_graph_state
-//@   ensures err == nil && result1 != nil ==> result0 != nil && fresh(result0) && fresh(result1)
-//@   ensures err == nil && result1 != nil ==> (forall i int :: 0 <= i && i < len(result0.Snapshots) ==> result0.Snapshots[i] != nil)
+//@ -- determineBestRound, updateEmptyHeadRoundAndPersist, startNewRoundAndPersist: VERIFIED contracts in zz_contracts_c20_verif.go (C20). Their
+//@ -- preconditions (graph/store representation) are C20's subject and are assumed at the call sites here (trustpre); their frames (chain.State
+//@ -- round state, the chains map, the node's graph timestamp, the store version) are part of prepareAnnouncement's frame below.
 
 // ───────────── prepareAnnouncement ─────────────
 // A self announcement (CosiActionSelfEmpty) carries transactions that popAndProcessCacheQueue already took OUT of the cache queue
@@ -44,11 +39,11 @@ package kernel
 // Explicit panics ("should never be here", final.Number+1 != cache.Number) are graph-consistency assertions: `maypanic`.
 //@ func (chain *Chain) prepareAnnouncement
 //@   property C24
-//@   trustpre Gap asFinal IsPledging -- RoundOK / representation of the round copies belong to C19, Pledging to C10
+//@   trustpre Gap asFinal IsPledging determineBestRound updateEmptyHeadRoundAndPersist startNewRoundAndPersist -- RoundOK / round copies: C19, Pledging: C10, graph + store representation: C20
 //@   requires CosiChainOK(chain) && AggsShape(chain) && !isnil(chain.persistStore)
 //@   requires m != nil && m.Snapshot != nil && m.data != nil
 //@   maypanic
-//@   modifies chain.CosiAggregators, chain.CosiVerifiers, m.Snapshot.RoundNumber, m.Snapshot.References, ghost bytes_cachequeue, ghost store_errors, ghost kernel_graph_state
+//@   modifies chain.CosiAggregators, chain.CosiVerifiers, m.Snapshot.RoundNumber, m.Snapshot.References, ghost bytes_cachequeue, ghost store_errors, ghost kernel_graph_state, ghost storever, chain.State.RoundLinks[..], chain.node.chains.m[..], chain.State.CacheRound, chain.State.FinalRound, chain.State.RoundHistory, chain.State.RoundHistory[..cap], chain.node.GraphTimestamp, chain.FinalIndex, chain.FinalCount
 //@   ensures [deferred-requeues] !result0 && err == nil && StoreErrors(chain.node.persistStore) == old(StoreErrors(chain.node.persistStore)) ==>
 //@       TxsRequeued(chain.node.persistStore, old(m.Snapshot))
 //@   -- the two CoSi maps are either the same objects as before (contents untouched) or the new, empty maps of a round reset
